@@ -888,3 +888,52 @@ pub fn gen_instance(rng: &mut Rng, p: &Profile) -> Inst {
         prefix: String::new(),
     }
 }
+
+/// Instances whose local search needs MORE accepted steps than the network has nodes (C08: the search
+/// runs to a fixpoint however long that takes): few service trips, each served by a long formation
+/// (so the fleet is several times larger than the network), one maintenance slot with room for the
+/// whole fleet, and a maximal distance that every vehicle exceeds in a day. The start solution sends
+/// only a part of the fleet to maintenance; the search sends the others, one vehicle per step.
+pub fn long_trajectory_instance(rng: &mut Rng) -> Inst {
+    let k = rng.range(3, 6);
+    let n_trips = rng.range(3, 5) as usize;
+    let capacity = *rng.pick(&[20u64, 50, 100]);
+    let seats = (capacity * 6) / 10;
+    let dist = *rng.pick(&[20_000u64, 50_000]);
+    let dur = GRID * rng.range(3, 5);
+    let mut departures = vec![];
+    for i in 0..n_trips {
+        departures.push(Departure {
+            route: 0,
+            segs: vec![DSeg { rseg: 0, departure: BASE + 60 * i as u64, passengers: capacity * k, seated: seats * k }],
+        });
+    }
+    let last_arrival = BASE + 60 * n_trips as u64 + dur;
+    let mstart = last_arrival + GRID * rng.range(2, 6);
+    Inst {
+        vtypes: vec![VType { capacity, seats, max_form: Some(k) }],
+        nlocs: 2,
+        depots: Some(vec![
+            InDepot { loc: 0, capacity: 100, allowed: vec![(0, None)] },
+            InDepot { loc: 1, capacity: 100, allowed: vec![(0, None)] },
+        ]),
+        default_order: vec![],
+        routes: vec![Route { vt: 0, segs: vec![RSeg { origin: 0, dest: 1, distance: dist, duration: dur, max_form: None }] }],
+        departures,
+        maint: vec![Maint { loc: 1, start: mstart, end: mstart + GRID * 6, tracks: k * n_trips as u64 + rng.range(0, 6) }],
+        dh_idx: vec![0, 1],
+        dh_dur: vec![vec![0, dur - GRID], vec![dur - GRID, 0]],
+        dh_dist: vec![vec![0, dist], vec![dist, 0]],
+        forbid: false,
+        shunt_min: 120,
+        shunt_dh: 300,
+        max_dist: 2 * dist,
+        c_staff: 100,
+        c_service: 50,
+        c_maint: 0,
+        c_dh: 500,
+        c_idle: 20,
+        render: rng.below(128),
+        prefix: String::new(),
+    }
+}
